@@ -315,7 +315,7 @@ func runC17Dial(l *evlog.Log, c *evlog.Case, cs *c17hsCase) {
 		conn   *quic.Conn
 		err    error
 		at     time.Duration
-		routed int // connection IDs the client transport still routes at the instant Dial returned an error
+		routed int // connection IDs the client transport still routes to a live connection at the instant Dial returned an error
 	}
 	accCh := make(chan res, 1)
 	go func() {
@@ -328,8 +328,10 @@ func runC17Dial(l *evlog.Log, c *evlog.Case, cs *c17hsCase) {
 		cc, err := w.Dial(ctx)
 		r := res{conn: cc, err: err, at: w.Router.Now()}
 		if err != nil {
-			cids, _, tokens := quic.VerifRouting(w.ClientTr)
-			r.routed = len(cids) + tokens
+			// entries that route to a closed-connection placeholder are not counted: a close that leaves one
+			// behind for its closing period is legal, a live connection after a failed Dial is not
+			cids, closed, tokens := quic.VerifRouting(w.ClientTr)
+			r.routed = len(cids) - closed + tokens
 		}
 		dialCh <- r
 	}()
@@ -361,7 +363,7 @@ func runC17Dial(l *evlog.Log, c *evlog.Case, cs *c17hsCase) {
 		// a failed Dial waits for the connection's run loop: when it returns, the connection is gone
 		l.Count("hs_failed_dials_checked_for_teardown", 1)
 		if d.routed > 0 {
-			viol("dial-returned-before-teardown", "Dial returned %v while the client transport still had %d routing entries / reset tokens for the connection", d.err, d.routed)
+			viol("dial-returned-before-teardown", "Dial returned %v while the client transport still routed %d connection IDs / reset tokens to a live connection", d.err, d.routed)
 		}
 	}
 	switch {
@@ -461,6 +463,21 @@ func runC17Dial(l *evlog.Log, c *evlog.Case, cs *c17hsCase) {
 			a.conn.CloseWithError(0, "")
 		}
 		l.Count("hs_accept_returned_connection", 1)
+	}
+	if cs.VNeg {
+		// the attempt that a genuine Version Negotiation packet ended is re-created, not closed: no
+		// CONNECTION_CLOSE is due for it (the server does not even speak its version)
+		if taps := w.Wire.Snapshot(); len(taps) > 0 {
+			w.Wire.Lock()
+			first := taps[0]
+			closes := append([]wiretap.Frame(nil), first.Closes[wiretap.C2S]...)
+			ver := first.Version
+			w.Wire.Unlock()
+			l.Count("hs_vneg_first_attempts_inspected", 1)
+			if len(closes) > 0 && ver != 1 {
+				viol("connection-close-for-recreated-attempt", "the attempt in version %#x that ended with a Version Negotiation packet emitted CONNECTION_CLOSE (type %#x, code %#x, %q)", ver, closes[0].Type, closes[0].ErrorCode, closes[0].Reason)
+			}
+		}
 	}
 	c.Eval(fmt.Sprintf("hs/%s/%s/%d/%s/vneg=%v", cs.Cause, cs.Client, cs.AtUs, outcome, cs.VNeg))
 	l.Count("hs_outcome_"+outcome, 1)
